@@ -1069,3 +1069,32 @@ mut('c15-await-get-directly', 'C15', ['C15.6'], S,
     "                # Get task timed out, cancel it cleanly to suppress warnings\n                get_next_queued_event.cancel()\n",
     "                # Get task timed out, keep waiting for it\n                return await get_next_queued_event\n",
     'after the poll timed out the run loop blocks on the queue without bound')
+
+# ================================================================================================ round-2 additions
+mut('c12-flat-list-aliases-first-result', 'C12', ['C12.3'], M,
+    "        merged_results: list[T_EventResultType | None] = []\n        for event_result in valid_results.values():\n            merged_results.extend(\n                cast(list[T_EventResultType | None], event_result.result)\n            )  # append the contents of the list to the merged list\n        return merged_results",
+    "        merged_results: list[T_EventResultType | None] | None = None\n        for event_result in valid_results.values():\n            chunk = cast(list[T_EventResultType | None], event_result.result)\n            if merged_results is None:\n                merged_results = chunk\n            else:\n                merged_results.extend(chunk)\n        return merged_results or []",
+    'the merged list starts as the first handler\'s own list: calling the view mutates a recorded result')
+mut('c08-flat-dict-updates-first-result', 'C08', ['C08.6'], M,
+    "        merged_results: dict[str, Any] = {}\n", "        merged_results: dict[str, Any] = next((r.result for r in valid_results.values() if r.result), {})  # type: ignore\n",
+    'flat_dict merges into the first handler\'s own dict')
+mut('c09-child-needs-no-parent-id', 'C09', ['C09.9'], S,
+    "                        if event.event_id != current_event.event_id:\n                            current_event.event_results[current_handler_id].event_children.append(event)",
+    "                        if event.event_id != current_event.event_id and event.event_parent_id == current_event.event_id:\n                            current_event.event_results[current_handler_id].event_children.append(event)",
+    'events dispatched with an explicit parent id are not registered as children')
+mut('c09-event-bus-cache', 'C09', ['C09.7'], M,
+    "        for bus in list(EventBus.all_instances):\n            if bus and hasattr(bus, 'name') and bus.name == current_bus_name:\n                return bus\n",
+    "        for bus in list(EventBus.all_instances):\n            if bus and hasattr(bus, 'name') and bus.name == current_bus_name:\n                self.__dict__['_bus_cache'] = bus\n                return bus\n",
+    None) if False else None
+mut('c03-parallel-wait-with-timeout', 'C03', ['C03.7'], S,
+    "            for handler_id, (task, handler) in handler_tasks.items():\n                try:\n                    await task\n                except Exception:\n                    # Error already logged and recorded in execute_handler\n                    pass\n",
+    "            await asyncio.wait([task for task, _h in handler_tasks.values()], timeout=timeout or event.event_timeout)\n",
+    'parallel handlers are waited for with a timeout: the marking step can run while one is still started')
+mut('c02-queue-reset-on-stop', 'C02', ['C02.6'], S,
+    "        # Clear references\n        self._runloop_task = None\n", "        # Clear references\n        self._runloop_task = None\n        self.event_queue = None\n",
+    'stop() drops the queue object (events still queued are lost when the bus is used again)')
+mut('c04-cancel-skips-clean-children', 'C04', ['C04.6'], M,
+    "            child_event.event_cancel_pending_child_processing(error)\n",
+    "            if any(r.status == 'pending' for r in child_event.event_results.values()):\n                child_event.event_cancel_pending_child_processing(error)\n",
+    'recursion only into children that had pending results themselves')
+MUTANTS[:] = [m for m in MUTANTS if m is not None]
